@@ -1744,7 +1744,8 @@ static void janet_register_stream_impl(JanetStream *stream, int mod, int edge_tr
     struct epoll_event ev;
     ev.events = edge_trigger ? EPOLLET : 0;
     if (stream->flags & (JANET_STREAM_READABLE | JANET_STREAM_ACCEPTABLE)) ev.events |= EPOLLIN;
-    if (stream->flags & JANET_STREAM_WRITABLE) ev.events |= EPOLLOUT;
+    /* Datagram sockets from net/listen are written to with net/send-to, which can block as well. */
+    if (stream->flags & (JANET_STREAM_WRITABLE | JANET_STREAM_UDPSERVER)) ev.events |= EPOLLOUT;
     ev.data.ptr = stream;
     int status;
     do {
@@ -1910,7 +1911,7 @@ void janet_register_stream_impl(JanetStream *stream, int edge_trigger) {
     if (stream->flags & (JANET_STREAM_READABLE | JANET_STREAM_ACCEPTABLE)) {
         EV_SETx(&kevs[length++], stream->handle, EVFILT_READ, EV_ADD | EV_ENABLE | clear, 0, 0, stream);
     }
-    if (stream->flags & JANET_STREAM_WRITABLE) {
+    if (stream->flags & (JANET_STREAM_WRITABLE | JANET_STREAM_UDPSERVER)) {
         EV_SETx(&kevs[length++], stream->handle, EVFILT_WRITE, EV_ADD | EV_ENABLE | clear, 0, 0, stream);
     }
     int status;
@@ -1940,7 +1941,7 @@ void janet_stream_level_triggered(JanetStream *stream) {
     if (stream->flags & (JANET_STREAM_READABLE | JANET_STREAM_ACCEPTABLE)) {
         EV_SETx(&kevs[length++], stream->handle, EVFILT_READ, EV_DELETE, 0, 0, stream);
     }
-    if (stream->flags & JANET_STREAM_WRITABLE) {
+    if (stream->flags & (JANET_STREAM_WRITABLE | JANET_STREAM_UDPSERVER)) {
         EV_SETx(&kevs[length++], stream->handle, EVFILT_WRITE, EV_DELETE, 0, 0, stream);
     }
     int status;
